@@ -152,10 +152,27 @@ fn check_exit_status(ctx: &Ctx, judgements: &[DocJudgement], out: &mut Vec<Viola
     }
     let unparsable = sc.docs.iter().any(|d| d.raw.is_some());
     let missing = !sc.cli.missing_paths.is_empty();
-    let shell_missing = sc.cli.shell.as_deref().map(|s| !std::path::Path::new(s).exists()).unwrap_or(false);
+    let shell_missing = sc.cli.shell.as_deref().map(|s| !std::path::Path::new(s).exists()).unwrap_or(false)
+        || (sc.cli.shell.is_none()
+            && sc
+                .docs
+                .iter()
+                .any(|d| d.main && d.shell.as_deref().map(|s| !std::path::Path::new(s).exists()).unwrap_or(false)));
+    // a prepend/append path that does not exist
+    let dangling = sc.docs.iter().filter(|d| d.main).any(|d| {
+        let dir = match d.path.rfind('/') {
+            Some(i) => &d.path[..i + 1],
+            None => "",
+        };
+        d.prepend
+            .iter()
+            .chain(d.append.iter())
+            .any(|p| !sc.docs.iter().any(|x| x.path == format!("{}{}", dir, p)))
+    });
     let hard = unparsable
         || missing
         || shell_missing
+        || dangling
         || judgements.iter().any(|j| j.run_fail && !j.may_fail)
         || !ctx.facts.spawn_failed.is_empty();
     let soft = judgements.iter().any(|j| j.may_fail);
@@ -439,8 +456,10 @@ fn check_env_cleanup(ctx: &Ctx, judgements: &[DocJudgement], out: &mut Vec<Viola
     }
 
     // clean-up: at scrut's exit, and again after the orphans have run on
-    if obs.exit_signal.is_some() {
-        return; // abort (e.g. stack overflow): no Drop runs, excluded by the property's wording of "exits"
+    if obs.exit_signal.is_some() || obs.sim_abort.is_some() || obs.exit_status == Some(97) {
+        // abort (e.g. stack overflow): no Drop runs, excluded by the property's wording of
+        // "exits"; or the simulator stopped a scrut that would block forever (judged under C14)
+        return;
     }
     let peer_paths: Vec<String> = ctx.facts.peers.iter().map(|p| p.1.clone()).collect();
     let is_peer = |root: &str, e: &str| {
